@@ -61,8 +61,11 @@ META = {
                     "bellman_ford(method='balanced') is judged on such weights only: for positive weights that are NOT of this "
                     'form (measured on the unchanged tree: every graph scaled to h = 2^-46 = 1.42e-14 or less, e.g. weights '
                     '1e-15 .. 4e-15) the absolute tolerance makes the balanced kernel ignore improvements of a path by <= 2e-14 '
-                    'and its distances / nearest centres are not the shortest-path ones -- outside the stated assumption, not '
-                    'generated; they speak about runs that return (model result `ok`): out-of-bounds accesses '
+                    'and its distances / nearest centres are not the shortest-path ones: known finding '
+                    '`balanced-bf-absolute-tolerance`, shown on every run by the fixed corpus of part_known (W = [[0,1,4],[1,0,3],'
+                    '[4,3,0]] * 2^-46, centres [1,0]; controls on the grid 2^-45 and with the standard method must hold) and by the '
+                    'scalings SC_BAL_TINY; the key is given only to the balanced variant on a weight grid (gcd of the weights) '
+                    '<= 2^-46, the model correspondence stays exact there; they speak about runs that return (model result `ok`): out-of-bounds accesses '
                     '(`fault`, only met with zero weights, where the real kernel is then not run) and the kernel\'s "too many '
                     'iterations" exception are outside',
                     'rcm_total assumes a symmetric pattern with column indices < n and a start node < n (int(rand()*n) always is)',
@@ -1107,6 +1110,40 @@ def part_c_rcm(ctx, graphs):
                     ctx.violation('symmetric_rcm: the result is not a symmetric permutation of the input', case)
 
 
+def part_known(ctx):
+    """fixed corpus for the known finding `balanced-bf-absolute-tolerance`: W = [[0,1,4],[1,0,3],[4,3,0]] * 2^-46, centres
+    [1, 0], balanced kernel and public wrapper (listed: node 2 keeps 4*2^-46); controls that must hold and are NOT listed
+    (the key is decided by _bal_fkey from the input): the same graph on the grid 2^-45, and the standard method on both"""
+    import pyamg.graph as PG
+    guard = _Guard()
+    W0 = np.array([[0, 1, 4], [1, 0, 3], [4, 3, 0]], dtype=float)
+    centers = np.array([1, 0], dtype=np.int32)
+    for ex in (-46, -45):
+        G = _csr(W0 * 2.0**ex)
+        base = {'n': 3, 'indptr': G.indptr.tolist(), 'indices': G.indices.tolist(), 'data': G.data.tolist(),
+                'centers': centers.tolist(), 'M': (W0 != 0).astype(int).tolist()}
+        for tb in (True, False):
+            runs = [('kernel bellman_ford_balanced', True, {'routine': 'bf_balanced', 'init': 'wrapper', 'tb': tb, **base},
+                     lambda: guard.call('kernel', 3, G.indptr, G.indices, G.data, centers, _bal_state(3, centers, 'wrapper'), tb)),
+                    ("bellman_ford(method='balanced')", True, {'routine': 'bf_balanced', 'init': 'wrapper', 'tb': tb, **base},
+                     lambda: guard.call('public', G, centers.tolist(), 'balanced', tb)),
+                    ("bellman_ford(method='standard')", False, {'routine': 'bf_kernel', **base},
+                     lambda: ('ok', PG.bellman_ford(G, centers.tolist(), method='standard', tiebreaking=tb)))]
+            for name, bal, case, call in runs:
+                ctx.case(key=_key('known-corpus', name, ex, tb), nontrivial=True)
+                ctx.feat(f'corpus:{name}:h=2^{ex}')
+                status, res = call()
+                if status != 'ok':
+                    ctx.violation(f'{name} (tiebreaking={tb}) on W*2^{ex}, centres [1, 0] did not return: {status} {res}', case)
+                    continue
+                d, m, p = res[0][:3] if name.startswith('kernel') else res
+                e = check_bf(G, centers, d, m, p)
+                if e:
+                    ctx.violation(f'{name} (tiebreaking={tb}) on W = [[0,1,4],[1,0,3],[4,3,0]] * 2^{ex}, centres [1, 0]: {e}',
+                                  case, fkey=_bal_fkey(bal, G.data))
+    guard.close()
+
+
 def part_c(ctx, graphs_bal, graphs_rcm):
     part_c_bal(ctx, graphs_bal)
     part_c_rcm(ctx, graphs_rcm)
@@ -1120,6 +1157,7 @@ def run(ctx):
         ga = list(graph_stream(ctx, 6, 4000, 40))
         gb = list(graph_stream(ctx, 5, 3000, 40))
     loops = list(loop_stream(3 if ctx.quick else 4))      # self loops exhaustively (kernels and public functions)
+    part_known(ctx)
     part_a(ctx, ga + loops)
     part_b(ctx, gb + loops)
     if ctx.quick:
@@ -1144,7 +1182,7 @@ def replay(ctx, data):
         e = check_bf(G, centers, st[0], st[1], st[2])
         print('replaying bellman_ford_balanced:', e or 'specification holds')
         if e:
-            ctx.violation(f'bellman_ford_balanced: {e}', case)
+            ctx.violation(f'bellman_ford_balanced: {e}', case, fkey=_bal_fkey(True, G.data))
         return
     if case.get('routine') == 'bf_kernel':
         from pyamg import amg_core
